@@ -13,6 +13,7 @@ class Expression:
     is_commented = True
     is_reference = False
     is_tagged = True
+    _helper_calls_rules = False
 
     def always_succeeds(self):
         return False
@@ -30,10 +31,10 @@ class Expression:
             func, params = self.functionalize(out, flags, is_generator=False)
             call = func(*params)
 
-            # Rule calls are yielded to the driver. If the code that moves into
+            # Rule calls are yielded to the driver. If the code that moved into
             # the helper function contains one, the helper is a generator (which
             # returns the three registers) and has to be delegated to.
-            if self._yields_to_driver():
+            if self._helper_calls_rules:
                 call = Code('(yield from ', call, ')')
 
             out += (STATUS, RESULT, POS) << call
@@ -77,23 +78,20 @@ class Expression:
         extras = ['_ctx'] if flags.uses_context else []
         params = extras + [str(TEXT), str(POS)] + list(sorted(self.freevars()))
 
+        # Parts of an expression that cannot be reached are not compiled at all
+        # (the alternatives after one that always succeeds, ...): what counts is
+        # the code that was generated, not the expression.
+        from . import utils
+        before = utils.rule_calls_generated()
+
         with out.global_section():
             with out.DEF(name, params):
                 self.compile(out, flags)
                 method = out.YIELD if is_generator else out.RETURN
                 method((STATUS, RESULT, POS))
 
+        self._helper_calls_rules = utils.rule_calls_generated() > before
         return Code(name), [Code(x) for x in params]
-
-    def _yields_to_driver(self):
-        found = []
-
-        def check(node):
-            if node.is_reference or node.is_call or node._skips_ignored():
-                found.append(node)
-
-        visit(self, check)
-        return bool(found)
 
     # The names of local variables (let, class fields, parameters) that the node
     # uses without a Ref: filled in by the translator's scope analysis.
@@ -101,10 +99,6 @@ class Expression:
 
     def mentioned_names(self):
         return ()
-
-    def _skips_ignored(self):
-        # Skipping the ignored tokens after a literal is a rule call too.
-        return getattr(self, 'skip_ignored', False)
 
     def freevars(self):
         counter = SymbolCounter()
